@@ -205,10 +205,37 @@ def analyze(args):
                     bads += [bad_pow2(o, x, case["k"], st) for o, x in zip(oe3, x3)]
                 else:
                     bads += [bad_div(o, x, case["d"], st, it3) for o, x in zip(oe3, x3)]
-            r3 = solve.check_sat_forked(z3.Or(*bads), pre3, timeout_s=timeout_s, kind="divconst" if case["kind"] == "div" else "mixed")
+            want3 = []
+            for k3 in range(len(in_types)):
+                for p3 in range(3):
+                    want3.append(("in", (k3, p3), in3[k3][p3]))
+            for (where, who), v in it3.rand_at.items():
+                if who is not None:
+                    want3.append(("rand", (where, who), v))
+            for i3, x in enumerate(xs3):
+                want3.append(("plain", i3, x))
+            terms3 = []
+            for _, _, v in want3:
+                terms3.extend(flat_elems(v))
+            r3 = solve.check_sat_forked(z3.Or(*bads), pre3, model_terms=terms3, timeout_s=timeout_s, kind="divconst" if case["kind"] == "div" else "mixed")
             out["queries"].append(dict(name="three_view", verdict=r3.verdict, tactic=r3.tactic, secs=round(r3.secs, 3), note=r3.note))
             if r3.verdict == "sat":
                 status = "sat3"
+                if r3.model is not None:
+                    pos3 = [0]
+                    got3 = {}
+                    for kind3, key3, v in want3:
+                        got3[(kind3, key3)] = mc.nest_like(v, r3.model, pos3)
+                    inputs3 = []
+                    for k3, t in enumerate(in_types):
+                        ct = T.tuple([t, t, t]) if case["owners"][k3] == "shared" else t
+                        inputs3.append([vals.enc(ct, got3[("in", (k3, p3))]) for p3 in range(3)])
+                    ovr3 = [{}, {}, {}]
+                    for kind3, key3, v in want3:
+                        if kind3 == "rand":
+                            where, who = key3
+                            ovr3[who]["%d:%d" % (where[-2], where[-1])] = vals.enc(mc.value_type(v), got3[(kind3, key3)])
+                    out["cex3"] = dict(inputs3=inputs3, overrides=ovr3, plain=[got3[("plain", i3)] for i3 in range(len(xs3))])
             elif r3.verdict != "unsat":
                 status = "unknown"
         out["status"] = status
@@ -267,6 +294,7 @@ def main():
     results = drv.run_jobs([check_c01.build_job(c) for c in cases])
     outs = pool_map(analyze, [(c, r, timeout_s) for c, r in zip(cases, results)])
     replay = []
+    replay3 = []
     slow = []
     for c, o in zip(cases, outs):
         chk.count("programs")
@@ -283,8 +311,7 @@ def main():
         elif o["status"] == "sat":
             replay.append((c, o))
         elif o["status"] == "sat3":
-            chk.violation("threeview|%s|%s|%s" % (c["template"], c["owners"], c["outs"]), "%s: in the three-party execution an output party ends outside the documented bound" % c["id"],
-                          dict(kind="c05_threeview", module="symg.check_c05", case={k: v for k, v in c.items() if not k.startswith("_")}))
+            replay3.append((c, o))
         elif o["status"] == "stage_error" and not o.get("panic") and c["kind"] == "div" and "signed" in o["note"]:
             chk.count("rejected_by_compiler")
         else:
@@ -299,6 +326,39 @@ def main():
                               dict(kind="c05", module="symg.check_c05", case={k: v for k, v in c.items() if not k.startswith("_")}, cex=o["cex"], job=j))
             else:
                 chk.inconc("%s: solver model did not reproduce on the real evaluator (%s)" % (c["id"], why))
+    for c, o in replay3:
+        chk.count("three_view_models_replayed")
+        if not o.get("cex3"):
+            chk.inconc("%s: three-view model without values" % c["id"])
+            continue
+        from . import check_c02
+        j = check_c02.replay_job(c, o["cex3"])
+        rr = drv.run_job(j)
+        parties = (rr.get("party_evals") or [{}])[0].get("parties")
+        t = T.from_json(c["in_types"][0])
+        why = None
+        if not parties:
+            chk.inconc("%s: three-party executor failed" % c["id"])
+            continue
+        for p in c["outs"]:
+            if parties[p]["error"]:
+                why = "party %d cannot evaluate: %s" % (p, parties[p]["error"])
+                break
+            fake = dict(evals=[dict(ok=True, output=parties[p]["output"])])
+            cexp = dict(inputs=[o["cex3"]["plain"][0]] if c["owners"][0] != "shared" else None)
+            if c["owners"][0] == "shared":
+                # plain_from_compiled expects the three shares: use (x, 0, 0)
+                zero = [0] * len(o["cex3"]["plain"][0])
+                cexp = dict(inputs=[[o["cex3"]["plain"][0], zero, zero]])
+            bad_, w_ = judge(dict(c, outs=[p]), cexp, fake)
+            if bad_:
+                why = "party %d: %s" % (p, w_)
+                break
+        if why:
+            chk.violation("threeview|%s|%s|%s" % (c["template"], c["owners"], c["outs"]), "%s (three-party execution): %s" % (c["id"], why),
+                          dict(kind="c05_threeview", module="symg.check_c05", case={k: v for k, v in c.items() if not k.startswith("_")}, cex=o["cex3"], job=j))
+        else:
+            chk.inconc("%s: three-view model did not reproduce in the three-party executor" % c["id"])
     for x in sorted(slow, reverse=True)[:10]:
         print("slow:", x)
     chk.functions = ["mpc::mpc_truncate::TruncateMPC2K::instantiate", "mpc::mpc_truncate::TruncateMPC::instantiate", "mpc::mpc_compiler::compile_to_mpc_graph (Truncate arm, key plumbing)", "mpc::mpc_compiler::compile_context"]
